@@ -5,6 +5,8 @@
    `facts` = the variant of the model selected by the facts read from in_memory.py on this run. *)
 From Coq Require Import Ascii List String Bool Arith Permutation.
 From SV Require Import Model.Transport Gen.TransportGen Proofs.Transport Model.Glob Proofs.Glob.
+From SV Require Model.Subscription Proofs.Subscription.
+Module MS := SV.Model.Subscription. Module PS := SV.Proofs.Subscription.
 Import ListNotations.
 
 (* Facts read from semantiva/execution/transport/in_memory.py on this run. *)
@@ -152,6 +154,33 @@ Example ex_glob : fnmatchb "jobs.1.cfg" (PGlob "jobs.[12].cfg") = true /\ fnmatc
                   fnmatchb "x[1]" (PGlob "x[[]1]") = true /\ fnmatchb "a" (PGlob "[b-a]") = false.
 Proof. vm_compute. repeat split; reflexivity. Qed.
 
+(* ---- one consumer over time: publish / open / next / close / drain sequences (Model/Subscription.v) -------------------
+   The closed flag is tested before a message is popped (read from InMemorySubscription.__iter__; hard obligation), hence a
+   closed subscription consumes nothing, and for EVERY operation sequence each published message is delivered at most once
+   and is still queued otherwise; a drain leaves no matching message behind. *)
+Lemma gen_closed_tested_before_pop : closed_tested_before_pop = true. Proof. reflexivity. Qed.
+
+Theorem C14_closed_subscription_consumes_nothing : forall sb t, MS.s_closed sb = true ->
+  fst (fst (MS.sub_next closed_tested_before_pop sb t)) = None /\ snd (fst (MS.sub_next closed_tested_before_pop sb t)) = t.
+Proof. rewrite gen_closed_tested_before_pop. exact PS.closed_consumes_nothing. Qed.
+
+Theorem C14_single_consumer_exactly_once : forall ops,
+  let s := MS.run_ops closed_tested_before_pop ops in
+  Permutation (MS.delivered s ++ MS.queued (MS.tbl s)) (seq 0 (MS.next_id s)) /\ NoDup (MS.delivered s ++ MS.queued (MS.tbl s)).
+Proof. rewrite gen_closed_tested_before_pop. exact PS.exactly_once. Qed.
+
+Theorem C14_drain_leaves_nothing : forall p fuel t ms t', List.length (MS.queued t) < fuel -> MS.drain p fuel t = (ms, t') ->
+  forall c q, In (c, q) t' -> glob p c = true -> q = [].
+Proof. exact PS.drain_complete. Qed.
+
+Theorem C14_flag_after_pop_refuted_when : closed_tested_before_pop = false ->
+  exists ops, let s := MS.run_ops closed_tested_before_pop ops in ~ In 1 (MS.delivered s ++ MS.queued (MS.tbl s)) /\ 1 < MS.next_id s.
+Proof. intros E. rewrite E. exact PS.lost_when_flag_tested_after_pop. Qed.
+
+Print Assumptions C14_closed_subscription_consumes_nothing.
+Print Assumptions C14_single_consumer_exactly_once.
+Print Assumptions C14_drain_leaves_nothing.
+Print Assumptions C14_flag_after_pop_refuted_when.
 Print Assumptions C14_exact_is_glob.
 Print Assumptions C14_prefix_is_glob.
 Print Assumptions C14_star_matches_all.
